@@ -240,6 +240,12 @@ func (val Value) Equals(other Value) Value {
 	case ty.IsObjectType():
 		oty := ty.typeImpl.(typeObject)
 		result = true
+		// Attribute types live in a Go map, whose iteration order is not
+		// defined, so the outcome must not depend on which attribute is
+		// visited first: a known-unequal attribute always decides the
+		// result, and only otherwise does an unknown comparison make the
+		// whole result unknown.
+		sawUnknown := false
 		for attr, aty := range oty.AttrTypes {
 			lhs := Value{
 				ty: aty,
@@ -251,12 +257,16 @@ func (val Value) Equals(other Value) Value {
 			}
 			eq := lhs.Equals(rhs)
 			if !eq.IsKnown() {
-				return unknownResult()
+				sawUnknown = true
+				continue
 			}
 			if eq.False() {
 				result = false
 				break
 			}
+		}
+		if result && sawUnknown {
+			return unknownResult()
 		}
 	case ty.IsTupleType():
 		tty := ty.typeImpl.(typeTuple)
@@ -333,6 +343,9 @@ func (val Value) Equals(other Value) Value {
 		ety := ty.typeImpl.(typeMap).ElementTypeT
 		if len(val.v.(map[string]interface{})) == len(other.v.(map[string]interface{})) {
 			result = true
+			// As for objects above, the result must not depend on the
+			// iteration order of the Go map.
+			sawUnknown := false
 			for k := range val.v.(map[string]interface{}) {
 				if _, ok := other.v.(map[string]interface{})[k]; !ok {
 					result = false
@@ -348,12 +361,16 @@ func (val Value) Equals(other Value) Value {
 				}
 				eq := lhs.Equals(rhs)
 				if !eq.IsKnown() {
-					return unknownResult()
+					sawUnknown = true
+					continue
 				}
 				if eq.False() {
 					result = false
 					break
 				}
+			}
+			if result && sawUnknown {
+				return unknownResult()
 			}
 		}
 	case ty.IsCapsuleType():
